@@ -462,25 +462,48 @@ def snap_obj(fmt, obj):
 
 
 # ----------------------------------------------------------------------------------------------- modifications
+_MISSING = object()
+
+
 def apply_mod(fmt, obj, mod):
-    """one modification of the real object graph:
+    """one modification of the real object graph; returns a function that undoes it (restores the previous value):
        {"path": p, "set": attr, "value": protocol value}                      setattr
        {"path": p, "setitem": attr, "keys": [k1, ..], "value": v}             part.attr[k1]..[kn] = v
        {"path": p, "rekey": [old, new]}                                       container.variants: move a child to another key
     """
     part = dict(all_parts(fmt, obj))[mod["path"]]
     if "set" in mod:
+        old = getattr(part, mod["set"], _MISSING)
         setattr(part, mod["set"], dec(copy.deepcopy(mod["value"])))
-    elif "setitem" in mod:
+
+        def undo():
+            if old is _MISSING:
+                delattr(part, mod["set"])
+            else:
+                setattr(part, mod["set"], old)
+        return undo
+    if "setitem" in mod:
         d = getattr(part, mod["setitem"])
         for k in mod["keys"][:-1]:
             d = d[k]
-        d[mod["keys"][-1]] = dec(copy.deepcopy(mod["value"]))
-    elif "rekey" in mod:
+        last = mod["keys"][-1]
+        old = d.get(last, _MISSING)
+        d[last] = dec(copy.deepcopy(mod["value"]))
+
+        def undo():
+            if old is _MISSING:
+                del d[last]
+            else:
+                d[last] = old
+        return undo
+    if "rekey" in mod:
         old, new = mod["rekey"]
         part.variants[new] = part.variants.pop(old)
-    else:
-        raise ValueError(mod)
+
+        def undo():
+            part.variants[old] = part.variants.pop(new)
+        return undo
+    raise ValueError(mod)
 
 
 def dumps(fmt, obj):
